@@ -3,16 +3,29 @@
 evidence/selftest_sensitivity.json."""
 import glob, json, os
 HERE = os.path.dirname(os.path.dirname(os.path.realpath(__file__)))
-print("| seeded change | breaks | what it needs in order to manifest | caught by (quick check, violation class) |")
+RS = {}
+rp = os.path.join(HERE, "seeded", "RECHECK.json")
+if os.path.exists(rp):
+    RS = json.load(open(rp))["results"]  # every change against the final machinery
+RB = {}
+rp = os.path.join(HERE, "benign", "RECHECK.json")
+if os.path.exists(rp):
+    RB = json.load(open(rp))["results"]
+print("| seeded change | breaks | what it needs in order to manifest | caught by (quick check of the final machinery, violation class) |")
 print("|---|---|---|---|")
 for f in sorted(glob.glob(os.path.join(HERE, "seeded", "*", "meta.json"))):
     m = json.load(open(f))
     cls = []
-    for p in m.get("caught_by", []):
-        for l in m["checks"][p]["lines"]:
-            if l.startswith("violation class="):
-                cls.append("%s `%s`" % (p, l.split()[1].split("=", 1)[1]))
-                break
+    r = RS.get(m["name"])
+    if r is not None:
+        if r["violation"] and r.get("class"):
+            cls.append("%s `%s`" % (r["property"], r["class"].split()[1].split("=", 1)[1]))
+    else:
+        for p in m.get("caught_by", []):
+            for l in m["checks"][p]["lines"]:
+                if l.startswith("violation class="):
+                    cls.append("%s `%s`" % (p, l.split()[1].split("=", 1)[1]))
+                    break
     hist = " *(%s)*" % m["history"] if m.get("history") else ""
     print("| %s | %s | %s%s | %s |" % (m["name"], m["property"], m.get("needs_to_manifest", ""), hist, "; ".join(cls) or "**missed**"))
 print()
@@ -20,7 +33,14 @@ print("| benign change (must not alarm) | written for | checks run | alarms |")
 print("|---|---|---|---|")
 for f in sorted(glob.glob(os.path.join(HERE, "benign", "*", "meta.json"))):
     m = json.load(open(f))
-    print("| %s | %s | %s | %s |" % (m["name"], m["property"], " ".join(sorted(m["checks"])), ", ".join(m["alarms"]) or "none"))
+    final = RB.get(m["name"])
+    if final is not None:
+        al = ", ".join(sorted(p for p, v in final.items() if v["exit"] != 0)) or "none"
+        if m["alarms"]:
+            al += " (first run: %s - assumptions of the machinery, corrected, section 9.3)" % ", ".join(m["alarms"])
+    else:
+        al = ", ".join(m["alarms"]) or "none"
+    print("| %s | %s | %s | %s |" % (m["name"], m["property"], " ".join(sorted(m["checks"])), al))
 print()
 sp = os.path.join(HERE, "evidence", "selftest_sensitivity.json")
 if os.path.exists(sp):
